@@ -131,7 +131,14 @@ def emit_pipeline(groups, flow=False):
                 lines.append('    retry: ' + yflow({'d': [[k, st['retry'][k]] for k in RETRY_KEYS if k in st['retry']]}))
             for key in ('run', 'skip', 'swallow', 'onError'):
                 if key in st:
-                    lines.append(f'    {key}: ' + yflow(st[key]))
+                    style = (st.get('ystyle') or {}).get(key)
+                    if style == 'anchor' and isinstance(st[key], str):
+                        lines.append(f'    {key}: &a{len(lines)} ' + yflow(st[key]))
+                    elif style == 'block' and isinstance(st[key], str):
+                        lines.append(f'    {key}: |-')
+                        lines.append('      ' + st[key])
+                    else:
+                        lines.append(f'    {key}: ' + yflow(st[key]))
     return '\n'.join(lines) + '\n', pos
 
 # ---------------------------------------------------------------- Coq emission
